@@ -5,7 +5,7 @@
 From Coq Require Import List NArith Bool.
 From Coq.Strings Require Import Byte.
 From GM Require Import Base.Lts Codec.Packet Session.Ids Session.Store
-  Broker.Conn Broker.ConnSpec Broker.ConnSpec2.
+  Broker.Conn Broker.ConnSpec Broker.ConnSpec2 Broker.ConnSpec5.
 Import ListNotations.
 Open Scope N_scope.
 
@@ -160,3 +160,65 @@ Lemma td_mutants_not_accepted :
   forallb (fun es => negb (accepted es))
     [td_bad_order; td_bad_twice; td_bad_release; td_bad_deq; td_bad_deq2; td_bad_life1; td_bad_life2; td_bad_life3] = true.
 Proof. vm_compute. reflexivity. Qed.
+
+(* ------------------------------------------------ C06_forward_intact (ConnSpec5.v) *)
+
+Definition td_q1r : message := Msg [x74] [x05] 1 true.       (* retain flag set, as queued *)
+
+(* four deliveries: QoS 1 (id 1), QoS 0 (id 0), QoS 2 (id 2), QoS 1 retained (id 3, after
+   PUBACK 1 freed the window) *)
+Definition td_fwd : list event :=
+  td_open td_conn 2 3 false [] ++
+  [EDeqCall 3; EDeqRet 3 (QMsg td_q1 true); ENextId 3 1; ESave 3 Outgoing (Publish false td_q1 1) true;
+   EDeqAck 3; ETx 3 (Publish false td_q1 1) true true;
+   EDeqCall 3; EDeqRet 3 (QMsg td_q0 false); ETx 3 (Publish false td_q0 0) true true;
+   EDeqCall 3; EDeqRet 3 (QMsg td_q2 false); ENextId 3 2; ESave 3 Outgoing (Publish false td_q2 2) true;
+   ETx 3 (Publish false td_q2 2) true true;
+   ERx 2 (Puback 1); EDelete 2 Outgoing 1 true;
+   EDeqCall 3; EDeqRet 3 (QMsg td_q1r false); ENextId 3 3; ESave 3 Outgoing (Publish false td_q1r 3) true;
+   ETx 3 (Publish false td_q1r 3) true true;
+   ERxErr 2; EDie 2 KTransport; EConnClose 2; ETerm 4 true; EClosed].
+
+Definition is_fresh_pub (e : event) : bool := match e with ETx _ (Publish false _ _) _ _ => true | _ => false end.
+
+Definition td_fw_pre : list event := [ENewConn; EDeqCall 3; EDeqRet 3 (QMsg td_q1r false); ENextId 3 7].
+Definition td_bad_fw_id : list event := td_fw_pre ++ [ETx 3 (Publish false td_q1r 8) true true].      (* not the allocated id *)
+Definition td_bad_fw_dup : list event := td_fw_pre ++ [ETx 3 (Publish true td_q1r 7) true true].      (* dup set *)
+Definition td_bad_fw_retain : list event :=                                                           (* retain flag altered *)
+  td_fw_pre ++ [ETx 3 (Publish false (Msg [x74] [x05] 1 false) 7) true true].
+Definition td_bad_fw_qos : list event :=                                                              (* QoS altered *)
+  td_fw_pre ++ [ETx 3 (Publish false (Msg [x74] [x05] 0 true) 0) true true].
+Definition td_bad_fw_noid : list event :=                                                             (* QoS 1 without an id *)
+  [ENewConn; EDeqCall 3; EDeqRet 3 (QMsg td_q1 false); ETx 3 (Publish false td_q1 0) true true].
+Definition td_bad_fw_q0id : list event :=                                                             (* QoS 0 with an id *)
+  [ENewConn; EDeqCall 3; EDeqRet 3 (QMsg td_q0 false); ETx 3 (Publish false td_q0 5) true true].
+Definition td_bad_fw_twice : list event :=                                                            (* forwarded twice *)
+  td_fw_pre ++ [ETx 3 (Publish false td_q1r 7) true true; ETx 3 (Publish false td_q1r 7) true true].
+Definition td_bad_fw_skip : list event :=                                                             (* never forwarded *)
+  td_fw_pre ++ [EDeqCall 3; EDeqRet 3 (QMsg td_q0 false)].
+
+Definition td_fw_mutants : list (list event) :=
+  [td_bad_fw_id; td_bad_fw_dup; td_bad_fw_retain; td_bad_fw_qos; td_bad_fw_noid; td_bad_fw_q0id;
+   td_bad_fw_twice; td_bad_fw_skip].
+
+Lemma td_fwd_ok :
+  accepted td_fwd = true /\ c06_forward_intact td_fwd = true /\ count_ev is_fresh_pub td_fwd = 4%nat /\
+  forallb c06_forward_intact [td_in_q1; td_in_q2; td_deq; td_resume; td_life] = true /\
+  forallb c14_lifecycle2 [td_in_q1; td_in_q2; td_deq; td_resume; td_life; td_fwd] = true.
+Proof. vm_compute. repeat split; reflexivity. Qed.
+
+Lemma td_fw_mutants_rejected :
+  forallb (fun es => negb (c06_forward_intact es)) td_fw_mutants = true /\
+  forallb (fun es => negb (accepted es)) td_fw_mutants = true.
+Proof. vm_compute. split; reflexivity. Qed.
+
+(* ------------------------------------------------------------ C07 progress *)
+
+(* two QoS 2 handshakes reach PUBREL; the backend has acknowledged neither publish *)
+Definition td_withheld : list event :=
+  td_open td_conn 2 10 false [] ++
+  [EDeqCall 3;
+   ERx 2 (Publish false td_q2 1); ESave 2 Incoming (Publish false td_q2 1) true; ETx 2 (Pubrec 1) true true;
+   ERx 2 (Publish false td_q2 2); ESave 2 Incoming (Publish false td_q2 2) true; ETx 2 (Pubrec 2) true true;
+   ERx 2 (Pubrel 1); ELookup 2 Incoming 1 (LRes (Some (Publish false td_q2 1))); EPub 2 td_q2 (Some 11); EPubRet 2 true;
+   ERx 2 (Pubrel 2); ELookup 2 Incoming 2 (LRes (Some (Publish false td_q2 2))); EPub 2 td_q2 (Some 12); EPubRet 2 true].
